@@ -186,11 +186,10 @@ func (zeroCtl) Visit(uint64) bool                                { return true }
 func (d *Driver) RunNative(args ...string) *Outcome { return d.run(nil, args) }
 
 func (d *Driver) run(sc vsched.Controller, args []string) *Outcome {
-	var stdout, stderr bytes.Buffer
+	// cobra's writers are left at their defaults (os.Stdout / os.Stderr, looked up at
+	// call time) exactly as in main(); both are redirected to scratch files below
 	out := &Outcome{}
 	c := cmd.CreateCmd("verif")
-	c.SetOut(&stdout)
-	c.SetErr(&stderr)
 	c.SetArgs(args)
 	savedOut, savedErr := os.Stdout, os.Stderr
 	os.Stdout, os.Stderr = d.outFile, d.errFile
@@ -224,10 +223,8 @@ func (d *Driver) run(sc vsched.Controller, args []string) *Outcome {
 	}
 	vexit.InProcess = false
 	os.Stdout, os.Stderr = savedOut, savedErr
-	// the real process interleaves cobra's writer and direct os.Stdout writes; the
-	// commands never use both for payload in one run, so concatenation is faithful
-	out.Stdout = stdout.String() + drain(d.outFile)
-	out.Stderr = stderr.String() + drain(d.errFile)
+	out.Stdout = drain(d.outFile)
+	out.Stderr = drain(d.errFile)
 	out.Deadlock, out.Horizon, out.Blocked, out.Pruned = res.Deadlock, res.Horizon, res.Blocked, res.Pruned
 	out.Steps, out.Goroutines, out.MaxLive, out.Leaked, out.Trace = res.Steps, res.Goroutines, res.MaxLive, res.Leaked, res.Trace
 	if res.Crash != "" {
